@@ -159,6 +159,7 @@ def run_history(mode, n, pseed, bounds_kind, fd_opts, ops, stats):
     n_grad_comp = 0  # gradient computations started (model)
     viol = []
     hit_cache = False
+    last_grad = [None]  # the gradient array most recently handed to the caller
     live = {"live0": x0}  # arrays the caller still owns, by name (incl. the one given to the constructor)
 
     def fresh_g(x):
@@ -181,6 +182,9 @@ def run_history(mode, n, pseed, bounds_kind, fd_opts, ops, stats):
             if what == "mutate_passed_array" and live:
                 name = sorted(live)[0]
                 live[name][:] = live[name] * 0.5 + 0.123  # caller overwrites the array it passed
+            elif what == "mutate_returned" and last_grad[0] is not None:
+                # the caller works in place on the gradient array it was handed (as the solver does)
+                last_grad[0][:] = last_grad[0] * -3.0 + 1.0
             elif what == "scribble_on":
                 user.scribble = True
             elif what == "reuse_buf_on" and not fd:
@@ -263,6 +267,8 @@ def run_history(mode, n, pseed, bounds_kind, fd_opts, ops, stats):
                     viol.append({"clause": "stale_or_wrong_value", "witness": dict(w, got=float(fv), fresh_times_scale=float(f_fresh * scale), scale=scale)})
             if kind in ("grad", "fun_and_grad"):
                 gv = out if kind == "grad" else out[1]
+                if isinstance(gv, np.ndarray) and gv.flags.writeable:
+                    last_grad[0] = gv
                 g_fresh = fresh_g(x_req)
                 if np.asarray(gv, dtype=float).tobytes() != (np.asarray(g_fresh) * scale).tobytes():
                     viol.append({"clause": "stale_or_wrong_gradient", "witness": dict(w, scale=scale, max_abs_diff=float(np.max(np.abs(np.asarray(gv) - g_fresh * scale))))})
@@ -330,7 +336,7 @@ def gen(rng, tier, index):
             if r < 0.12:
                 ops.append({"op": "set_scale", "s": float(choice(rng, [1.0, 2.0, 0.5, 3.7, 1e-3, 1e3]))})
             elif r < 0.3:
-                ops.append({"op": "fault", "what": str(choice(rng, ["mutate_passed_array", "scribble_on", "reuse_buf_on", "raise_next_fun", "raise_next_grad"])), "skip": int(rng.integers(0, 3))})
+                ops.append({"op": "fault", "what": str(choice(rng, ["mutate_passed_array", "mutate_returned", "mutate_returned", "scribble_on", "reuse_buf_on", "raise_next_fun", "raise_next_grad"])), "skip": int(rng.integers(0, 3))})
             else:
                 p = choice(rng, [0, 1, 2, 0, 1, 2, "fresh", "live0", "live1", "twin0", "twin1", "near0", "near2"])
                 ops.append({"op": str(choice(rng, OPS)), "p": p, "as": str(choice(rng, ["copy", "copy", "view", "keep"]))})
